@@ -63,7 +63,14 @@ TRACE = re.compile(r"  t\.sd:(\d+):(\d+): in '([^'\n]+)'\n")
 INTERNAL = re.compile(r"\b[A-Z][A-Za-z]+Failed\b|\b[A-Z][A-Za-z]+ \{ \w+:|\bSome\(|\bNone\b")
 
 
-def wrap(stmt_text, depth, ctxkind, is_return_expr=None):
+# statements that fail *inside* one more (anonymous method) call frame than the one they are written in
+FRAME_STMT_ERRORS = [
+    ("this_param_clash", 'm2 := {"f": fn (this) {\n    return 1\n}}\nm2.f(1)'),
+    ("method_body_error", 'm3 := {"g": fn () {\n    return zz_undefined\n}}\nm3.g()'),
+]
+
+
+def wrap(stmt_text, depth, ctxkind, is_return_expr=None, extra_frame=None):
     """build the program; returns (src, expected_stdout, expected_frames) — frames: innermost-first list of function names
     that must appear in the trace (`in '<name>'`), and the name the first line must carry (or None)."""
     lines = []
@@ -89,6 +96,8 @@ def wrap(stmt_text, depth, ctxkind, is_return_expr=None):
         names.append(fname)
     # names so far: [<unnamed>?] + [f_depth .. f1] built inside-out: innermost first means reverse order of wrapping
     chain = ([f"f{d}" for d in range(1, depth + 1)]) + (["<unnamed function>"] if ctxkind == "method" else [])
+    if extra_frame:
+        chain = chain + [extra_frame]
     src = PRELUDE + text + '\nprint("unreachable-end")\n'
     expected_stdout = "p0\n" + "p-inner\n"
     # trace: one line per active call, innermost first, each naming the function containing the call, ending at <root>
@@ -170,6 +179,10 @@ def run(ctx, model_ok):
                 if ctx.tier != "thorough" and (depth + len(ck) + len(name)) % 2 != 0 and not (depth <= 1 and ck == "plain"):
                     continue
                 cases.append(((name, "stmt", depth, ck),) + wrap(st, depth, ck))
+    for name, st in FRAME_STMT_ERRORS:
+        for depth in range(0, min(maxd, 2) + 1):
+            for ck in ("plain", "loop", "block"):
+                cases.append(((name, "stmt", depth, ck),) + wrap(st, depth, ck, extra_frame="<unnamed function>"))
     # jumps that escape a called function / the program
     for j in ("break", "continue"):
         for depth in (1, 2, 3):
